@@ -20,13 +20,15 @@ Lemma fb_incn_ne : forall c f g, g <> f -> fb (incn c f) g = fb c g.
 Proof. intros. unfold fb. rewrite cn_incn_ne; auto. Qed.
 Lemma fb_add_pwok : forall c ks g, fb (add_pwok c ks) g = fb c g.
 Proof. reflexivity. Qed.
+Lemma fb_add_kl : forall c t ks g, fb (add_kl c t ks) g = fb c g.
+Proof. reflexivity. Qed.
 
 Lemma own_pw_reply : forall s s' r T ks x, invT s T -> stepr s (EPwReply r T ks x) = Ok s' -> invT s' T.
 Proof.
   intros s s' r T ks x [G I] H. cbn [stepr] in H. unfold step_pw_reply in H. chks H. okinv H.
   apply delivered_In in C0.
   destruct x as [m o | k |].
-  - repeat (rewrite ?fb_add_pwok; try rewrite fb_setn_ne by discriminate; try rewrite fb_incn_ne by discriminate).
+  - repeat (rewrite ?fb_add_pwok, ?fb_add_kl; try rewrite fb_setn_ne by discriminate; try rewrite fb_incn_ne by discriminate).
     destruct (N.eq_dec o 0) as [-> | Ho].
     + cbn [N.eqb]. destruct (m =? 0), (fb (getc s T) FTried1).
       all: split;
@@ -73,6 +75,19 @@ Proof.
   - right. split; auto.
 Qed.
 
+Lemma async_cts_spec : forall l r T ks, async_cts l r T ks = true ->
+  exists p ttl m secs, In (ECtsReply r T p (StLocked ttl m true secs)) l /\ subset ks secs = true.
+Proof.
+  unfold async_cts. intros l r T ks H. apply existsb_exists in H. destruct H as [e [H1 H2]].
+  destruct e; try discriminate. destruct st; try discriminate. destruct async; try discriminate. b2p. subst. eauto 10.
+Qed.
+Lemma csl_all_locked_cts : forall s r T C, csl_all_locked s r T C = true ->
+  exists p ttl m secs, In (ECtsReply r T p (StLocked ttl m true secs)) (s_cts s).
+Proof.
+  unfold csl_all_locked. intros s r T C H. apply existsb_exists in H. destruct H as [e [H1 H2]].
+  destruct e; try discriminate. destruct st; try discriminate. destruct async; try discriminate. b2p. subst. eauto 10.
+Qed.
+
 Lemma own_rs_send : forall s s' r T C ks, invT s T -> stepr s (ERsSend r T C ks) = Ok s' -> invT s' T.
 Proof.
   intros s s' r T C ks [G I] H. cbn [stepr] in H. unfold step_rs_send in H. chks H.
@@ -88,7 +103,13 @@ Proof.
     specialize (I Hm Hc). constructor; prep; useGI G I.
     all: t_some_rb s; t_Dn s; t_Dd s.
     b2p. apply orb_true_iff in C1. destruct C1 as [C1 | C1]; b2p; auto. congruence.
-  - split; [constructor; prep; useG G |].
+  - assert (HA : cn (getc s T) FTriedA <> 0).
+    { assert (exists p ttl m secs, In (ECtsReply r T p (StLocked ttl m true secs)) (s_cts s)) as [p [ttl [m [secs Hi]]]].
+      { apply orb_true_iff in C1. destruct C1 as [C1 | C1].
+        - apply andb_true_iff in C1. destruct C1 as [_ C1]. apply async_cts_spec in C1. destruct C1 as [p [ttl [m [secs [C1 _]]]]]. eauto.
+        - apply csl_all_locked_cts in C1. auto. }
+      apply (g_cts_sub _ _ G) in Hi. apply (g_async_cts _ _ G) in Hi. auto. }
+    split; [constructor; prep; useG G |].
     intros Hh' [_ [_ D]]. exfalso. apply (D C). rd. left. auto.
 Qed.
 
